@@ -138,6 +138,13 @@ func VH13a_listener() {
 			order = append(order, l)
 		}
 		verif.Assert(l.id == p.ID(), lab+"/pipe-id-changed-during-its-life")
+		// while its Attaching or Detached callback runs the pipe's id is still reserved: nobody else can be given it
+		// before the application has been told that this pipe is gone
+		// (an Attached callback may be overtaken by the pipe's own Detached when the peer is gone already; the property
+		// speaks of pipes whose Detached has not returned, so only Attaching and Detached are judged)
+		if ev != mangos.PipeEventAttached {
+			verif.Assert(core.ZZIDInUse(p.ID()), lab+"/pipe-id-released-before-the-detached-callback-returned")
+		}
 		switch ev {
 		case mangos.PipeEventAttaching:
 			l.attaching++
